@@ -403,6 +403,7 @@ func runC03(c *Ctx) {
 		}
 		c.Check(fname(pvmFn)+"#quorum-memory-withdrawn-with-the-weight", pvmFn.Pos(), ok, ifelse(ok, "in the double-voter case the recorded quorum is deleted when the remaining tally is below the threshold", "when a double voter's weight is taken out of its first block nothing withdraws the quorum recorded for that block: precommits 700+400+300 reach 1400 ≥ 1370, the 300 equivocate and X drops to 1100, certificate votes reach their quorum and judgeVoteCount(Certificate) commits on the remembered precommit quorum — the CommitEvent's precommit set weighs 1100"))
 	}
+	c03RoundE(c, c.W)
 }
 
 func c03Q8(c *Ctx, w *World, pvm *ssa.Function, jvcObj *types.Func) {
@@ -1251,4 +1252,131 @@ func isFalseStore(in ssa.Instruction) bool {
 	}
 	cv, ok := mu.Value.(*ssa.Const)
 	return ok && cv.Value != nil && cv.Value.String() == "false"
+}
+
+// c03RoundE: Q14 (a recycled vote container starts empty for every kind) and Q15 (a BLS vote counts only verified).
+func c03RoundE(c *Ctx, w *World) {
+	c.Rule("C03.Q14", "EXHAUSTIVE", "quorums are counted per round index: the vote containers are recycled (VotesWrapperList keeps MaxVoteCacheCount of them), and clearVotesInfo, which re-targets one to a new (round, index), reads every *VoteSta field of VotesManager and clears it — a kind left out keeps the tallies and per-sender records of index i in index i+4, old weight counts towards the new quorum and the packed vote set mixes signatures of two indexes")
+	c.Min(1)
+	{
+		cl := w.Fn(uconPkg, "VotesManager", "clearVotesInfo")
+		c.sawFunc(fname(cl))
+		st := w.Struct(uconPkg, "VotesManager")
+		staT := w.Named(uconPkg, "VoteSta")
+		loaded := map[string]bool{}
+		for _, in := range allInstrs(cl) {
+			if fa, ok := in.(*ssa.FieldAddr); ok {
+				if f := fieldOfAddr(fa); f != nil {
+					for _, r := range *fa.Referrers() {
+						if u, isU := r.(*ssa.UnOp); isU && u.Op == token.MUL {
+							loaded[f.Name()] = true
+						}
+					}
+				}
+			}
+		}
+		clears := 0
+		for _, ci := range callInstrs(cl) {
+			if o := calleeObj(ci); o != nil && o.Name() == "clear" && recvName(o) == "VoteSta" {
+				clears++
+			}
+		}
+		var missing []string
+		n := 0
+		for i := 0; i < st.NumFields(); i++ {
+			f := st.Field(i)
+			if types.Identical(deref(f.Type()), staT) {
+				n++
+				if !loaded[f.Name()] {
+					missing = append(missing, f.Name())
+				}
+			}
+		}
+		c.sites++
+		if n == 0 {
+			c.Undecided(fname(cl)+"#clears-every-kind", cl.Pos(), "no *VoteSta field found in VotesManager")
+		} else {
+			ok := len(missing) == 0 && clears > 0
+			c.Check(fname(cl)+"#clears-every-kind", cl.Pos(), ok, ifelse(ok, fmt.Sprintf("all %d vote-kind containers are read and cleared", n), "clearVotesInfo leaves "+strings.Join(missing, ", ")+" untouched: a recycled container starts the new round index with the old votes of that kind"))
+		}
+	}
+
+	c.Rule("C03.Q15", "SAME-VALUE", "weight only from verified credentials: with BLS enabled getAddrFromVote is the only place where the signature of an incoming vote is checked — every return reached after pk.Verify(payload, sig) hands that call's result to the caller as the error (a shadowed variable that only logs the failure returns nil: any decodable signature is then counted, the node commits on a quorum that is not there and every verifier rejects the packed aggregate)")
+	c.Min(1)
+	{
+		ga := w.Fn(uconPkg, "VoteBLSMgr", "getAddrFromVote")
+		c.sawFunc(fname(ga))
+		var ver *ssa.Call
+		for _, ci := range callInstrs(ga) {
+			if o := calleeObj(ci); o != nil && o.Name() == "Verify" && o.Pkg() != nil && o.Pkg().Path() == full("bls") {
+				if cc, ok := ci.(*ssa.Call); ok {
+					ver = cc
+				}
+			}
+		}
+		c.sites++
+		if ver == nil {
+			c.Fail(fname(ga)+"#verify-result-returned", ga.Pos(), "getAddrFromVote no longer verifies the vote's BLS signature (no PublicKey.Verify call)")
+		} else {
+			bad := ""
+			n := 0
+			for _, b := range ga.Blocks {
+				ret, isRet := b.Instrs[len(b.Instrs)-1].(*ssa.Return)
+				if !isRet || !instrDominates(ver, ret) {
+					continue
+				}
+				n++
+				seen := map[ssa.Value]bool{}
+				var leaf func(v ssa.Value) bool
+				leaf = func(v ssa.Value) bool {
+					v = stripConvNoBind(v)
+					if seen[v] {
+						return true
+					}
+					seen[v] = true
+					if v == ssa.Value(ver) {
+						return true
+					}
+					if ph, ok := v.(*ssa.Phi); ok {
+						for _, e := range ph.Edges {
+							if !leaf(e) {
+								return false
+							}
+						}
+						return true
+					}
+					// a local variable: every store into it
+					if u, ok := v.(*ssa.UnOp); ok && u.Op == token.MUL {
+						if al, isAl := u.X.(*ssa.Alloc); isAl {
+							k := 0
+							for _, r := range *al.Referrers() {
+								if stv, isSt := r.(*ssa.Store); isSt && stv.Addr == ssa.Value(al) && instrDominates(ver, stv) {
+									k++
+									if !leaf(stv.Val) {
+										return false
+									}
+								}
+							}
+							return k > 0
+						}
+					}
+					// a freshly made non-nil error
+					if _, ok := v.(*ssa.MakeInterface); ok {
+						return true
+					}
+					if cc, ok := v.(*ssa.Call); ok {
+						if o := calleeObj(cc); o != nil && (o.Name() == "Errorf" || o.Name() == "New") {
+							return true
+						}
+					}
+					return false
+				}
+				if !leaf(ret.Results[len(ret.Results)-1]) {
+					bad = w.Pos(ret.Pos())
+				}
+			}
+			ok := bad == "" && n > 0
+			c.Check(fname(ga)+"#verify-result-returned", ver.Pos(), ok, ifelse(ok, "the result of PublicKey.Verify is what the caller gets", "the return at "+bad+" is reached after the signature check but does not hand its result to the caller: a vote with a wrong signature is accepted and counted"))
+		}
+	}
 }
